@@ -53,6 +53,10 @@ def cases(tier, seed):
         yield "conversions", dict(proj=proj, crval=list(crval), scale=sc)
     for proj, crval, sc in itertools.product(PROJ, CRVALS[:2], [10.0]):
         yield "argtypes", dict(proj=proj, crval=list(crval), scale=sc)
+    for crval, sc, pv in itertools.product([(180.0, -45.0), (45.0, 80.0), (0.001, 30.0)], [10.0, 60.0], range(len(PVSIN))):
+        yield "pvsin", dict(crval=list(crval), scale=sc, pv=pv)
+    for crval, sc, k in itertools.product([(180.0, -45.0), (45.0, 80.0)], [10.0, 60.0], [1.0, 5.0]):
+        yield "sip", dict(crval=list(crval), scale=sc, strength=k)
     for first in range(len(LIVE)):
         for upfront in (0, 1):
             yield "interleaved", dict(first=first, upfront=upfront)
@@ -60,6 +64,66 @@ def cases(tier, seed):
 
 LIVE = [("SIN", (30.0, -15.0), 10.0, None), ("TAN", (30.0, -15.0), 30.0, (40.5, 160.25)), ("ZEA", (30.0, -15.0), 5.0, (120.0, 33.0)),
         ("SIN", (30.2, -14.9), 10.0, None), ("STG", (359.98, 72.0), 20.0, (10.0, 250.0))]
+
+
+PVSIN = [(0.0, 0.0), (0.1, -0.05), "ncp", (-0.02, 0.3)]
+
+
+def ev_pvsin(case, ctx):
+    """slant orthographic headers (SIN with PV2_1, PV2_2: interferometer images, NCP): the sky position of a pixel must be the
+    one of the FITS standard - the forward formula of the independent model maps it back onto the pixel"""
+    crval = tuple(case["crval"])
+    sc = case["scale"]
+    cd = sc / 3600.0
+    pv = PVSIN[case["pv"]]
+    hdr = wz.make_header("SIN", crval, cd, SHAPE, beam=(3 * cd, 2 * cd, 20.0))
+    if pv == "ncp":
+        pv = (0.0, 1.0 / np.tan(np.radians(crval[1])))
+    hdr["PV2_1"], hdr["PV2_2"] = float(pv[0]), float(pv[1])
+    wcs = WCSHelper.from_header(wz.to_fits_header(hdr))
+    tag = "pvsin:crval=%r,scale=%g,pv=(%.4g,%.4g)" % (crval, sc, pv[0], pv[1])
+    for (x, y) in [(100.0, 150.0), (1.0, 1.0), (200.0, 300.0), (37.25, 211.5), (180.0, 20.0), (5.0, 290.0)]:
+        ctx.count("pvsin")
+        sig = "%s,pix=%r" % (tag, (x, y))
+        ctx.nontrivial(sig)
+        ra, dec = wcs.pix2sky([x, y])
+        ox, oy = wz.sky2pix(hdr, ra, dec)            # (column, row)
+        err = float(np.hypot(ox - y, oy - x))
+        ctx.note_max("pvsin_err_px", err)
+        if not err < 1e-6:
+            ctx.violation("pix2sky(%r) = (%.9f, %.9f); by the standard's slant-orthographic formula that position belongs to pixel (row %.6f, col %.6f): %.3g px off (%s)" % (
+                (x, y), ra, dec, oy, ox, err, tag), "pvsin_pix2sky|" + sig)
+        bx, by = wcs.sky2pix([ra, dec])
+        if not np.hypot(bx - x, by - y) < 1e-6:
+            ctx.violation("sky2pix(pix2sky(%r)) = (%.9f, %.9f) (%s)" % ((x, y), bx, by, tag), "pvsin_roundtrip|" + sig)
+    ctx.outcome("pvsin")
+
+
+def ev_sip(case, ctx):
+    """headers with SIP distortion polynomials (TAN-SIP): no independent model of these exists here; the inverse clause needs
+    none.  astropy inverts the distortion iteratively to 1e-4 pixel, so the round trip is judged at 1e-3 pixel here."""
+    sc = case["scale"]
+    cd = sc / 3600.0
+    hdr = wz.make_header("TAN", tuple(case["crval"]), cd, SHAPE, beam=(3 * cd, 2 * cd, 20.0))
+    hdr["CTYPE1"], hdr["CTYPE2"] = "RA---TAN-SIP", "DEC--TAN-SIP"
+    k = case["strength"]
+    hdr.update(A_ORDER=2, B_ORDER=2, A_2_0=2e-5 * k, A_0_2=-1e-5 * k, A_1_1=1.5e-5 * k, B_2_0=-1.2e-5 * k, B_0_2=2.5e-5 * k, B_1_1=-0.8e-5 * k)
+    wcs = WCSHelper.from_header(wz.to_fits_header(hdr))
+    tag = "sip:crval=%r,scale=%g,strength=%g" % (tuple(case["crval"]), sc, k)
+    for (x, y) in [(100.0, 150.0), (1.0, 1.0), (200.0, 300.0), (37.25, 211.5), (180.0, 20.0), (5.0, 290.0)]:
+        ctx.count("sip")
+        sig = "%s,pix=%r" % (tag, (x, y))
+        ctx.nontrivial(sig)
+        ra, dec = wcs.pix2sky([x, y])
+        bx, by = wcs.sky2pix([ra, dec])
+        err = float(np.hypot(bx - x, by - y))
+        ctx.note_max("sip_roundtrip_px", err)
+        if not err < 1e-3:
+            ctx.violation("sky2pix(pix2sky(%r)) = (%.6f, %.6f): %.3g pixel off on a header with SIP distortion terms (%s)" % ((x, y), bx, by, err, tag), "sip_roundtrip|" + sig)
+        ex, ey, esx, esy, eth = wcs.sky2pix_ellipse([ra, dec], 5 * cd, 3 * cd, 30.0)
+        if not np.hypot(ex - x, ey - y) < 1e-3:
+            ctx.violation("sky2pix_ellipse at pix2sky(%r) starts from (%.6f, %.6f) (%s)" % ((x, y), ex, ey, tag), "sip_ellipse|" + sig)
+    ctx.outcome("sip")
 
 
 def ev_argtypes(case, ctx):
@@ -311,4 +375,4 @@ def ev_conversions(case, ctx):
 
 
 def evaluate(clause, case, ctx):
-    dict(interleaved=ev_interleaved, argtypes=ev_argtypes).get(clause, ev_conversions)(case, ctx)
+    dict(interleaved=ev_interleaved, argtypes=ev_argtypes, pvsin=ev_pvsin, sip=ev_sip).get(clause, ev_conversions)(case, ctx)
